@@ -9,8 +9,10 @@ import (
 	"io"
 	"regexp"
 	"strings"
+	"sync"
 	"time"
 
+	"mellium.im/xmlstream"
 	"mellium.im/xmpp"
 	"mellium.im/xmpp/jid"
 	"mellium.im/xmpp/stanza"
@@ -218,7 +220,22 @@ func openSession(r sessRec, local, was string, conn *vt.Conn) (*xmpp.Session, *a
 	return s, ad, nil
 }
 
+// Markers at the start of an input chunk (see serveSession): the local side calls Close() before the chunk is
+// fed / the application issues a request with the given id and waits for its response before the chunk is fed.
+const (
+	markClose = "\x00CLOSE\x00"
+	markReq   = "\x00REQ:"
+)
+
+// waiterObs is what a requester that waited for a response observed.
+type waiterObs struct {
+	ID  string     `json:"id"`
+	Err string     `json:"err"` // error of the blocking request call itself ("" = it was handed a response)
+	Ev  [][]string `json:"ev"`  // what it read from the response
+}
+
 type served struct {
+	Waiters []waiterObs
 	Wire    string
 	Err     error
 	Panic   string
@@ -234,6 +251,11 @@ type served struct {
 // one). Between two chunks - when Serve has consumed everything before - the local side
 // calls Close().
 func serveSession(r sessRec, local, was string, render func(a *addrs) []string, h xmpp.Handler) served {
+	return serveSessionW(r, local, was, render, h, 0)
+}
+
+// serveSessionW: wn is the number of read attempts a requester makes on the response it is handed.
+func serveSessionW(r sessRec, local, was string, render func(a *addrs) []string, h xmpp.Handler, wn int) served {
 	conn := vt.NewConn()
 	var res served
 	s, ad, err := openSession(r, local, was, conn)
@@ -246,19 +268,93 @@ func serveSession(r sessRec, local, was string, render func(a *addrs) []string, 
 	pre := len(conn.WireString())
 	preIn := conn.Consumed()
 	chunks := render(ad)
-	res.Input = strings.Join(chunks, "")
 	next := 0
+	var wmu sync.Mutex
+	var wwg sync.WaitGroup
+	var cancels []context.CancelFunc
+	// request: the application sends a get request with this id and blocks for the response (as SendIQ / UnmarshalIQ /
+	// IterIQ callers do); returns when the request is on the wire, i.e. registered as pending
+	request := func(id string) {
+		ctx, cancel := context.WithCancel(context.Background())
+		cancels = append(cancels, cancel)
+		wwg.Add(1)
+		gone := make(chan struct{})
+		go func() {
+			defer wwg.Done()
+			defer close(gone)
+			o := waiterObs{ID: id, Ev: [][]string{}}
+			defer func() {
+				if x := recover(); x != nil {
+					o.Err = "panic: " + fmt.Sprint(x)
+				}
+				wmu.Lock()
+				res.Waiters = append(res.Waiters, o)
+				wmu.Unlock()
+			}()
+			resp, err := s.SendIQ(ctx, stanza.IQ{ID: id, Type: stanza.GetIQ}.Wrap(xmlstream.Wrap(nil, xml.StartElement{Name: xml.Name{Space: "urn:verif:q", Local: "q"}})))
+			if err != nil {
+				o.Err = err.Error()
+				return
+			}
+			depth := -1 // the response's own start element comes first
+			for i := 0; i < wn; i++ {
+				tok, err := resp.Token()
+				if tok != nil {
+					if depth < 0 {
+						o.Ev = append(o.Ev, []string{"S"})
+						depth = 0
+					} else {
+						o.Ev = append(o.Ev, tokSym8(tok, &depth))
+					}
+				}
+				if err != nil {
+					if err == io.EOF {
+						o.Ev = append(o.Ev, []string{"eof"})
+					} else {
+						o.Ev = append(o.Ev, []string{"err"})
+					}
+					break
+				}
+			}
+			resp.Close()
+		}()
+		deadline := time.Now().Add(10 * time.Second)
+		for !strings.Contains(conn.WireString()[pre:], `id="`+id+`"`) && time.Now().Before(deadline) {
+			select {
+			case <-gone: // the call returned without waiting (it could not send)
+				return
+			default:
+			}
+			time.Sleep(20 * time.Microsecond)
+		}
+	}
+	plain := make([]string, len(chunks))
+	for i, c := range chunks {
+		for strings.HasPrefix(c, "\x00") {
+			c = c[strings.Index(c[1:], "\x00")+2:]
+		}
+		plain[i] = c
+	}
+	res.Input = strings.Join(plain, "")
 	feed := func() {
-		// feed chunks until something is there to read; Close() before every chunk but the first
+		// feed chunks until something is there to read; what the local side does before a chunk is in its markers
 		for conn.InputEmpty() {
 			if next == len(chunks) {
 				conn.CloseIn()
 				return
 			}
-			if next > 0 {
-				s.Close()
+			c := chunks[next]
+			for strings.HasPrefix(c, "\x00") {
+				end := strings.Index(c[1:], "\x00") + 2
+				switch m := c[:end]; {
+				case m == markClose:
+					s.Close()
+				case strings.HasPrefix(m, markReq):
+					request(m[len(markReq) : len(m)-1])
+				}
+				c = c[end:]
 			}
-			conn.FeedString(chunks[next])
+			conn.FeedString(c)
 			next++
 		}
 	}
@@ -279,6 +375,21 @@ func serveSession(r sessRec, local, was string, render func(a *addrs) []string, 
 	case <-time.After(10 * time.Second):
 		res.Stalled = true
 		conn.Close()
+		for _, c := range cancels {
+			c()
+		}
+		return res
+	}
+	// requesters still waiting (Serve ended before their response came) give up
+	for _, c := range cancels {
+		c()
+	}
+	wdone := make(chan struct{})
+	go func() { wwg.Wait(); close(wdone) }()
+	select {
+	case <-wdone:
+	case <-time.After(10 * time.Second):
+		res.Stalled = true
 		return res
 	}
 	res.Wire = conn.WireString()[pre:]
